@@ -135,7 +135,7 @@ func Assertf(b bool, id string, msg string) {
 	defer mu.Unlock()
 	reached[id]++
 	if !b {
-		failed = append(failed, id+" "+msg)
+		failed = append(failed, id+"\t"+msg)
 	}
 }
 
@@ -309,3 +309,7 @@ func CaptureStdout(f func()) string {
 	}()
 	return <-done
 }
+
+// DeadlockIsViolation: from here on, all goroutines blocked forever is the
+// violation id (natively the run hangs and the replay times out).
+func DeadlockIsViolation(id string) {}
